@@ -55,6 +55,14 @@ def shard_fn(shard, nshards, seed, tier, exe, npairs):
                         ref = nest(rng, m, shape if shape != "r" else "x", "0", via)
                         t = nest(rng, m, shape if shape != "r" else "x", leaf, via)
                         add(D, t, rng.choice([0, 0, 1, 3]), "boundary-ext", ("as", ref, leaf), flags=0)
+                    if m < D and rng.random() < (0.3 if tier == "quick" else 1.0):
+                        # a document WITHIN the limit, cut short anywhere (the NUL follows): whatever the error is, it cannot be "nesting too deep"
+                        t = nest(rng, m, shape, rng.choice(["0", '"s"', "null", "true"]), via)   # (a scalar leaf: a container leaf would be one level more)
+                        add(D, t[:rng.randrange(1, max(2, len(t)))], rng.choice([0, 0, 1]), "boundary-truncated", ("truncated",))
+                        if m == D - 1:
+                            # ... in particular cut right after the innermost opener of a document whose D-th container is empty: D containers are open, nothing is too deep
+                            t = nest(rng, m, shape, "[]", via)
+                            add(D, t[:t.index(b"[]") + 1], rng.choice([0, 0, 1]), "boundary-truncated", ("truncated",))
                     if rng.random() < (0.25 if tier == "quick" else 1.0):
                         # malformed right at / beyond the limit (missing value, stray separator or closer): any error, but no memory error
                         leaf = rng.choice(["", ",", "}", "]", ":", "x", '"unterminated', "[,", '{"a":}', '{"a":,', '{"a"}', "{,", "[}"])
@@ -163,6 +171,13 @@ def shard_fn(shard, nshards, seed, tier, exe, npairs):
         err, end, nonnull = int(f[1]), int(f[2]), int(f[3])
         peak, stack = int(f[4].split("=")[1]), int(f[5].split("=")[1])
         sh.evaluations += 1
+        if kind == "boundary-truncated":
+            sh.count("kind." + kind)
+            if err == E_DEPTH:
+                sh.violation("C15/depth-error-within-limit", "a truncated document with at most %d open containers under limit %d was reported as nested too deep (end %d)" % (text.count(b"[") + text.count(b"{"), D, end),
+                             {"driver": "jcdrv", "variant": "asan", "script": cmdmap[cid], "depth_limit": D, "text": text[:300].decode("latin1")})
+            sh.nontrivial(b"%d/t/" % D + text)
+            continue
         if kind == "boundary-malformed":
             sh.count("kind." + kind)
             if err == 0 and text.count(b"[") + text.count(b"{") >= D + 1:
